@@ -13,11 +13,11 @@ Inductive rangek :=
 | RSplit (sep : N) (b0 b1 : bounds) (c : cmp).    (* b0 on int(v.split(sep)[0]), b1 on int(v.split(sep)[1]), then [0] <c> [1] *)
 
 (* exception classes that the validation paths can raise *)
-Inductive exn := ELabel | EValue | EIndex | EAssert | EType | ETag | ECapacity | EData | EOther.
+Inductive exn := ELabel | EValue | EIndex | EAssert | EType | ETag | ECapacity | EData | ETopology | EOther.
 
 Definition exn_eqb (a b : exn) : bool :=
   match a, b with
   | ELabel, ELabel | EValue, EValue | EIndex, EIndex | EAssert, EAssert | EType, EType
-  | ETag, ETag | ECapacity, ECapacity | EData, EData | EOther, EOther => true
+  | ETag, ETag | ECapacity, ECapacity | EData, EData | ETopology, ETopology | EOther, EOther => true
   | _, _ => false
   end.
